@@ -394,6 +394,11 @@ def _extract_one(args):
     tool, dbdir, src, out, roots = args
     cmd = [tool, '-p', dbdir, '--out=' + out, '--roots=' + roots, src]
     r = subprocess.run(cmd, capture_output=True, text=True)
+    if r.returncode != 0 and "undefined template 'nlohmann::basic_json" in r.stderr:
+        # g++ accepts a non-dependent use of the forward-declared Json inside a template (variables.h);
+        # clang checks it eagerly.  Re-parse with the full json header force-included (same semantics).
+        cmd = cmd[:-1] + ['--extra-arg=-include', '--extra-arg=' + REPO + '/3rd-party/nlohmann/json.hpp', src]
+        r = subprocess.run(cmd, capture_output=True, text=True)
     return src, out, r.returncode, r.stderr[-2000:]
 
 
